@@ -813,6 +813,8 @@ def next_child_id(mod):
     rets = []
 
     def lvl(e):
+        if isinstance(e, ast.Name) and e.id != dn:
+            e = inl.inline_at(e)
         u = ast.unparse(e)
         tab = {f"{dn}.level": "(d_lvl (dnth p ds))", f"{dn}._level": "(d_lvl (dnth p ds))", "self.height": "(height c)", "len(self.levels)": "(height c)", "len(self._levels)": "(height c)"}
         if u in tab:
